@@ -40,6 +40,7 @@ void harness(void)
     unsigned R = 16; for(int k = 0; k < NEL; k++) R += 4 + elen[k];
     for(unsigned j = 0; j < OBJ; j++) buf[j] = nd_char();   /* destination is a reused buffer with stale bytes */
     size_t cap = R + CAPX;   /* concrete: exact fit, or room to spare (bytes beyond cap stay stale) */
+    RT_BEGIN();
 #if NEL == 0
     size_t r = rtosc_bundle(buf, cap, tt, 0);
 #elif NEL == 1
@@ -77,5 +78,6 @@ void harness(void)
         }
         off += 4 + elen[k];
     }
+    RT_END();
     WITNESS("C08 end");
 }
